@@ -138,6 +138,9 @@ def eff1(units, R):
                 if x.get('k') == 'ref' and x.get('dk') == 'fn' and x['n'] in ALLOCATORS:
                     nrefs += 1
                     ok = g['n'] in hook_globals and uname == 'cJSON.c'
+                    if not ok and uname == 'cJSON.c' and (g.get('const') or u.ty(g['ty']).get('const')) and \
+                            _is_hooks_type(u, g['ty'], hooks[0][1]['name']) and x['n'] in DEFAULT_ALLOC:
+                        ok = True       # a constant table of the defaults, of the hooks type itself (static const internal_hooks default_hooks)
                     R.ob('EFF1', None, None, 'initialiser of %s references %s' % (g['n'], x['n']), ok,
                          'default entry of the hooks table' if ok else 'allocator referenced outside the hooks table',
                          key='init:%s:%s' % (g['n'], x['n']), file=u.file, line=x['loc'][0])
@@ -171,6 +174,13 @@ def eff1(units, R):
                     elif p['op'] in ('==', '!='):
                         ok = True
                         why = 'compared only: %s' % expr_str(p)
+                if uname == 'cJSON.c' and p is not None and p.get('k') == 'initlist' and x['n'] in DEFAULT_ALLOC:
+                    # internal_hooks new_hooks = { malloc, free, realloc };  - the table under construction, installed as a whole
+                    stg = _staging_tables(u, fn, hooks[0][0]['n'], hooks[0][1]['name'])
+                    for d_ in fn.locals():
+                        if 'init' in d_ and strip_casts(d_['init']) is p and d_['n'] in stg:
+                            ok = True
+                            why = 'default in the initialiser of %s, the table under construction that is then installed as a whole' % d_['n']
                 if p is not None and p.get('k') == 'call' and p['fn'] is child:
                     why = 'direct call %s' % expr_str(p)[:80]
                 R.ob('EFF1', fn, x, 'reference to %s' % x['n'], ok, why,
@@ -575,6 +585,14 @@ def eff3(units, R):
                 if l.get('k') == 'ref' and l['n'] == gname and l.get('dk') == 'global' and fn not in writers:
                     writers.append(fn)       # the whole table is assigned (from a table assembled locally)
     R.floor('EFF3', 'functions installing hooks', len(writers), 1)
+    # constant tables of the hooks type whose entries are libc functions (static const internal_hooks default_hooks = {...})
+    consts = {}
+    for g in u.globals:
+        if g['n'] != gname and 'init' in g and (g.get('const') or u.ty(g['ty']).get('const')) and _is_hooks_type(u, g['ty'], rec['name']):
+            ini = strip_casts(g['init'])
+            if ini.get('k') == 'initlist' and len(ini['inits']) == len(fieldnames) and \
+                    all(strip_casts(x).get('k') == 'ref' and strip_casts(x).get('dk') == 'fn' for x in ini['inits']):
+                consts[g['n']] = {f: ('libc', strip_casts(x)['n']) for f, x in zip(fieldnames, ini['inits'])}
     for fn in writers:
         cfg = fn.cfg()
         paths = _enumerate_paths(cfg)
@@ -589,10 +607,29 @@ def eff3(units, R):
             feasible = True
             for (nid, label) in path:
                 n = cfg.nodes[nid]
+                if n.kind == 'decl' and n.decl is not None and n.decl.get('n') in side and 'init' in n.decl:
+                    # internal_hooks selected = { malloc, free, realloc };   /   = default_hooks;
+                    ini = strip_casts(n.decl['init'])
+                    if ini.get('k') == 'initlist' and len(ini['inits']) == len(fieldnames):
+                        for f_, x_ in zip(fieldnames, ini['inits']):
+                            x0 = strip_casts(x_)
+                            side[n.decl['n']][f_] = ('libc', x0['n']) if (x0.get('k') == 'ref' and x0.get('dk') == 'fn') else \
+                                (('null', None) if is_null_const(x_) else ('user', expr_str(x0), False))
+                    elif ini.get('k') == 'ref' and ini.get('n') in consts:
+                        side[n.decl['n']] = dict(consts[ini['n']])
+                    elif ini.get('k') == 'ref' and ini.get('n') == gname:
+                        side[n.decl['n']] = dict(st)
+                    continue
                 if n.kind == 'stmt' and n.expr.get('k') == 'bin' and n.expr['op'] == '=':
                     l = strip_casts(n.expr['l'])
                     if l.get('k') == 'ref' and l['n'] == gname and strip_casts(n.expr['r']).get('n') in side:
                         st = dict(side[strip_casts(n.expr['r'])['n']])     # global_hooks = selected;
+                        continue
+                    if l.get('k') == 'ref' and strip_casts(n.expr['r']).get('n') in consts and (l['n'] == gname or l['n'] in side):
+                        if l['n'] == gname:
+                            st = dict(consts[strip_casts(n.expr['r'])['n']])          # global_hooks = default_hooks;
+                        else:
+                            side[l['n']] = dict(consts[strip_casts(n.expr['r'])['n']])
                         continue
                     tgt = None
                     if l.get('k') == 'mem' and l['f'] in fieldnames and strip_casts(l['b']).get('n') == gname:
@@ -646,6 +683,12 @@ def eff3(units, R):
                         else:
                             # member of the table compared with a libc function
                             m, f = (lhs, rhs) if lhs.get('k') == 'mem' else (rhs, lhs)
+                            # a member of a constant default table stands for the libc function it holds
+                            for (x_, y_) in ((lhs, rhs), (rhs, lhs)):
+                                if y_.get('k') == 'mem' and strip_casts(y_['b']).get('n') in consts and y_['f'] in fieldnames and \
+                                        x_.get('k') == 'mem' and strip_casts(x_['b']).get('n') not in consts:
+                                    m = x_
+                                    f = {'k': 'ref', 'dk': 'fn', 'n': consts[strip_casts(y_['b'])['n']][y_['f']][1]}
                             if m.get('k') == 'mem' and m['f'] in fieldnames and f.get('k') == 'ref' and f.get('dk') == 'fn':
                                 obj = side.get(strip_casts(m['b']).get('n'), st) if strip_casts(m['b']).get('n') != gname else st
                                 cur = obj[m['f']]
